@@ -266,7 +266,50 @@ def ttl_order_prefix(c):
             c.emit(0, ["size"])
 
 
+def gen_bulk(rng, kind):
+    """A short script over a large key universe (70-200 keys): long ranges, many entries expiring at once.
+    Reaches thresholds that small scripts cannot (batching, per-call limits)."""
+    bounded = kind not in ("utmap", "utset")
+    n = rng.choice([70, 100, 130, 200])
+    c = Ctx(rng, kind, cap=(rng.choice([n // 2, n, n + 7]) if bounded else 0), nkeys=n, ttl=(2 if kind in ("utlru", "utmap", "utset") else 0))
+    c.long = False
+    c.cur_ttl = c.ttl
+    keys = list(range(n))
+    rng.shuffle(keys)
+    xs = []
+    for k in keys:
+        xs.append("%d:%d:%d" % (k, c.fresh_val(), 2 if kind == "tlru" else 0))
+        c.note_write(k, 2)
+    c.emit(0, ["insr", "iu", ",".join(xs)])
+    for _ in range(rng.randint(3, 7)):
+        x = rng.random()
+        if x < 0.3 and (kind in TTL_KINDS or kind == "lfuda"):
+            c.now += rng.choice([MS, 2 * MS, 2 * MS + 1, 3 * MS])
+        y = rng.random()
+        if y < 0.3:
+            c.emit(0, ["find", rng.randrange(n), c.peek()])
+        elif y < 0.5:
+            c.emit(0, [rng.choice(["findr", "findf"]), c.peek(), fmt_list([rng.randrange(n) for _ in range(rng.choice([3, 80, 150]))])])
+        elif y < 0.6:
+            c.emit(0, ["eraser", fmt_list([rng.randrange(n) for _ in range(rng.choice([3, 80]))])])
+        elif y < 0.75:
+            c.emit(0, ["size"])
+        elif y < 0.85 and kind in TTL_KINDS:
+            c.emit(0, ["clean"])
+        elif y < 0.9 and kind == "lfuda":
+            c.emit(0, ["age"])
+        else:
+            k, v = rng.randrange(n), c.fresh_val()
+            c.emit(0, ["ins", k, v, c.allow(), 2])
+    ts, lf, val, seed = variant(rng)
+    universe = n
+    return ["cfg %s %d %d %d %d %d %d single ts=%d lf=%s val=%s seed=%d" % (
+        kind, c.cap, c.ttl, c.tick, c.num, c.den, universe, ts, lf, val, seed)] + c.lines + ["end"]
+
+
 def gen_single(rng, kind, maxops=60):
+    if rng.random() < 0.04:
+        return gen_bulk(rng, kind)
     c = Ctx(rng, kind)
     n = rng.randint(8, maxops)
     if kind in TTL_KINDS:
